@@ -1691,7 +1691,9 @@ def oracle_units(case):
             # the same physical problem under two configurations: dimensionless outputs agree (floors are relative; an entry or a
             # component next to a floor may be kept under one configuration and dropped under the other: covariance's allowance)
             band = (not S.iso and (_floor_band(S.C6) or _floor_band(S.C6s))) or _floor_band(S.b_raw)
-            tol = TOL_COV * S.amp + (2e-7 * float(np.linalg.cond(S.C6)) if band else 0.0)
+            # 10 x the covariance tolerance: the sextic matrix has blocks of dimension stiffness, 1/stiffness and 1, so a change
+            # of units re-scales the blocks against each other and moves the eigen-solution by more than a rotation does
+            tol = 10 * TOL_COV * S.amp + (2e-7 * float(np.linalg.cond(S.C6)) if band else 0.0)
             a, b = first['dimless'], second['dimless']
             for nm in sorted(a):
                 sc = max(float(np.abs(a[nm]).max()), S.bn / A if nm in ('du', 'burgers') else 0.0)
